@@ -197,6 +197,52 @@ int main(int argc, char** argv) {
       DeserializationError e2 = deserializeMsgPack(d2, mp.data(), mp.size(), DeserializationOption::NestingLimit(120));
       out = string(e.c_str()) + " " + showS(d.as<JsonVariantConst>()) + " " + e2.c_str() + " " + showS(d2.as<JsonVariantConst>()) +
             (d.as<JsonVariantConst>() == d2.as<JsonVariantConst>() ? " eq" : " ne");
+    } else if (op == "conv") {
+      // C13: every typed extraction of the root value
+      int cfg; string spec; is >> cfg >> spec;
+      if (cfg != cfgBits()) { std::cout << "cfg-mismatch\n"; continue; }
+      JsonDocument d(&SPY0); buildDoc(d, spec);
+      JsonVariantConst v = d.as<JsonVariantConst>();
+      char buf[400];
+      float f = v.as<float>(); double g = v.as<double>(); uint32_t fb; uint64_t gb; memcpy(&fb, &f, 4); memcpy(&gb, &g, 8);
+      snprintf(buf, sizeof buf, "i8=%d u8=%u i16=%d u16=%u i32=%d u32=%u i64=%lld u64=%llu f=%08x d=%016llx is=%d%d%d%d%d%d%d%d%d%d",
+               (int)v.as<int8_t>(), (unsigned)v.as<uint8_t>(), (int)v.as<int16_t>(), (unsigned)v.as<uint16_t>(), (int)v.as<int32_t>(), (unsigned)v.as<uint32_t>(),
+               (long long)v.as<int64_t>(), (unsigned long long)v.as<uint64_t>(), fb, (unsigned long long)gb,
+               (int)v.is<int8_t>(), (int)v.is<uint8_t>(), (int)v.is<int16_t>(), (int)v.is<uint16_t>(), (int)v.is<int32_t>(), (int)v.is<uint32_t>(),
+               (int)v.is<int64_t>(), (int)v.is<uint64_t>(), (int)v.is<float>(), (int)v.is<double>());
+      out = buf;
+      // the other integral spellings must agree with the fixed-width type of the same size and signedness
+      if (v.as<long>() != (long)v.as<int64_t>() || v.as<unsigned long>() != (unsigned long)v.as<uint64_t>() || v.as<long long>() != v.as<int64_t>() ||
+          v.as<short>() != v.as<int16_t>() || v.as<int>() != v.as<int32_t>() || v.as<signed char>() != v.as<int8_t>() || v.as<unsigned char>() != v.as<uint8_t>() ||
+          (v | (int32_t)77) != (v.is<int32_t>() ? v.as<int32_t>() : 77))
+        out += " ALIAS-MISMATCH";
+    } else if (op == "cmp") {
+      string sa, sb; is >> sa >> sb;
+      JsonDocument da(&SPY0), db(&SPY0);
+      bool ua = sa == "?", ub = sb == "?";
+      if (!ua) buildDoc(da, sa); if (!ub) buildDoc(db, sb);
+      JsonVariantConst a = ua ? JsonVariantConst() : da.as<JsonVariantConst>(), b = ub ? JsonVariantConst() : db.as<JsonVariantConst>();
+      auto bits = [](JsonVariantConst x, JsonVariantConst y) { string r; r += x == y ? '1' : '0'; r += x != y ? '1' : '0'; r += x < y ? '1' : '0'; r += x <= y ? '1' : '0'; r += x > y ? '1' : '0'; r += x >= y ? '1' : '0'; return r; };
+      out = bits(a, b) + " " + bits(b, a);
+    } else if (op == "cmps") {
+      string sa, sc; is >> sa >> sc;
+      JsonDocument da(&SPY0); buildDoc(da, sa); JsonVariantConst a = da.as<JsonVariantConst>();
+      string kind = sc.substr(0, sc.find(':')), val = sc.substr(sc.find(':') + 1);
+#define BITS(X) { auto xx_ = (X); string r, q; r += a == xx_ ? '1' : '0'; r += a != xx_ ? '1' : '0'; r += a < xx_ ? '1' : '0'; r += a <= xx_ ? '1' : '0'; r += a > xx_ ? '1' : '0'; r += a >= xx_ ? '1' : '0'; \
+                  q += xx_ == a ? '1' : '0'; q += xx_ != a ? '1' : '0'; q += xx_ < a ? '1' : '0'; q += xx_ <= a ? '1' : '0'; q += xx_ > a ? '1' : '0'; q += xx_ >= a ? '1' : '0'; out = r + " " + q; }
+      if (kind == "i64") BITS((long long)strtoll(val.c_str(), 0, 10))
+      else if (kind == "u64") BITS((unsigned long long)strtoull(val.c_str(), 0, 10))
+      else if (kind == "i32") BITS((int32_t)strtoll(val.c_str(), 0, 10))
+      else if (kind == "u32") BITS((uint32_t)strtoull(val.c_str(), 0, 10))
+      else if (kind == "i16") BITS((int16_t)strtoll(val.c_str(), 0, 10))
+      else if (kind == "u16") BITS((uint16_t)strtoull(val.c_str(), 0, 10))
+      else if (kind == "b") BITS(val == "1")
+      else if (kind == "d") { uint64_t bb = strtoull(val.c_str(), 0, 16); double g; memcpy(&g, &bb, 8); BITS(g) }
+      else if (kind == "f") { uint32_t bb = (uint32_t)strtoul(val.c_str(), 0, 16); float g; memcpy(&g, &bb, 4); BITS(g) }
+      else if (kind == "s") { string x = unhex(val); BITS(x) }
+      else if (kind == "cs") { string x0 = unhex(val); const char* x = keep(x0); BITS(x) }
+      else out = "bad-kind";
+#undef BITS
     } else if (op == "stream" || op == "mpstream") {
       // successive calls on one reader until the input is exhausted or 40 calls were made
       int cfg = 0, lim, chunk; string hex;
